@@ -13,7 +13,7 @@ PROP = "C14"
 LEVEL = "exploration"
 ENGINE = "LOB"
 N = {"quick": 1200, "thorough": 80000}
-TIME = {"quick": 40, "thorough": 420}
+TIME = {"quick": 300, "thorough": 420}
 RULE = ("Random interleavings (5-80 operations) of quotes and discontinuations over assets, futures, a futures chain (with the "
         "process clock moved across roll dates) and plain string keys, delivered both by Exchange.process_* and by "
         "event.notify([exchange]); one-sided / NaN quotes included. After EVERY operation every key (object and symbol string) is "
